@@ -41,7 +41,7 @@ PROPS["C18"] = {
                   "time; parked/woken confirmed through sync.Cond's waiter count); sync.Mutex/Cond, os.File.ReadAt/WriteAt/Truncate semantics; "
                   "uint64 wrap-around of positions is not modelled; after Close, DataRange answers (0,0) and a custom close error is lost "
                   "(inverted nil test) - modelled as written, outside the property.",
-    "rule": "(op cx: the descriptor of the ring file is closed first so that the truncate inside close() is refused, then Close — in the random schedules and in 36 (thorough 200) short file-backend schedules closing in every way with 0-4 readers waiting.) (whenever a schedule closes the backlog while readers are parked, store.close() is made to take 4 ms through an add-only hook.) roff/woff/align: every combination of size in {1,2,3,7,4096,8192,12288,4MiB}, write position at 0/1/2/5 laps +-2, "
+    "rule": "(stress: a writer, a following reader and two goroutines calling DataRange/IsValid/Offset/SeekTo all the while — every call returns, the range only moves forward and ends as the last min(total, capacity) bytes.) (op cx: the descriptor of the ring file is closed first so that the truncate inside close() is refused, then Close — in the random schedules and in 36 (thorough 200) short file-backend schedules closing in every way with 0-4 readers waiting.) (whenever a schedule closes the backlog while readers are parked, store.close() is made to take 4 ms through an add-only hook.) roff/woff/align: every combination of size in {1,2,3,7,4096,8192,12288,4MiB}, write position at 0/1/2/5 laps +-2, "
             "reader distance in {0,1,2,size-1,size,size+1,random}, buffer length in {0,1,2,size-1,size,size+1,2size,random}; "
             "sched: random serialised schedules (20..1500 ops) of Write(literal or generated pattern; lengths 0, to-the-seam+-1, size+-1, "
             "multiples of size, small), NewReader (up to 5), SeekTo to offsets around both ends of the window / the seam / 0 / 2^64-1, "
